@@ -26,7 +26,14 @@ Ltac step_goal :=
   | |- ?l <> _ => split_on l
   | |- ?l = _ -> _ => split_on l
   end.
-Ltac flow := repeat (cbn; try discriminate; try (intro; discriminate); step_goal); cbn; try discriminate; try (intro; discriminate).
+Ltac destr_enums :=
+  repeat match goal with
+         | x : intv |- _ => destruct x
+         | x : decv |- _ => destruct x
+         | x : bigv |- _ => destruct x
+         | x : durv |- _ => destruct x
+         end.
+Ltac flow := destr_enums; repeat (cbn; try discriminate; try (intro; discriminate); step_goal); cbn; try discriminate; try (intro; discriminate).
 
 (* ---------------- loops ---------------- *)
 Lemma coins_rest_panic : forall cs low, coins_validate_rest low cs = VPanic -> coins_nil_amount cs = true.
@@ -127,9 +134,7 @@ Proof. repeat split; vm_compute; reflexivity. Qed.
 Lemma v_MsgUpdateParams_total : forall m, params_nil_dec (up_params m) = false -> v_MsgUpdateParams m <> VPanic.
 Proof.
   intros [a c p] H; unfold v_MsgUpdateParams; cbn [up_authority up_chain up_params] in *.
-  pose proof (v_Params_total p H) as HT. destruct (v_Params p); [ | | congruence];
-  destruct (acc_ok a), (chain_known c); cbn; try discriminate.
-  destruct (0 <? p_oracles p); cbn; discriminate.
+  pose proof (v_Params_total p H) as HT. destruct (v_Params p); [ | | congruence]; flow.
 Qed.
 
 (* ---------------- MsgBridgeCall ---------------- *)
@@ -160,7 +165,7 @@ Proof. split; vm_compute; reflexivity. Qed.
 Lemma confirm_refuted : h_MsgConfirm_entry {| mw_confirm := AnyNil |} = VPanic.
 Proof. reflexivity. Qed.
 Lemma confirm_total : forall m, mw_confirm m <> AnyNil -> h_MsgConfirm_entry m <> VPanic.
-Proof. intros [[| |c]] H; cbn; try discriminate; congruence. Qed.
+Proof. intros [[| |c]] H; cbn in *; try discriminate; exfalso; apply H; reflexivity. Qed.
 
 (* ---------------- every other validator is total ---------------- *)
 Lemma v_claim_total : forall c, v_claim c <> VPanic.
@@ -228,6 +233,7 @@ Proof.
   - destruct a; unfold v_crosschain_args; cbn in H; flow.
     all: try (destruct value; cbn in *; discriminate).
   - unfold validate_external_addr. destruct c; try discriminate; destruct (ext_ok _ x); discriminate.
+  - destruct m as [t v d]; unfold v_IbcCallEvmPacket; cbn in H; destruct v; try discriminate; flow.
 Qed.
 
 (* the recorded panic classes are real in the model (none of the guards is vacuous) *)
@@ -237,7 +243,8 @@ Lemma known_panics_are_panics :
   validate (I_MsgBridgeCall bridge_call_absent_value) = VPanic /\
   validate (I_MsgBridgeCall bridge_call_absent_coin_amount) = VPanic /\
   validate (I_MsgConfirm {| mw_confirm := AnyNil |}) = VPanic /\
-  validate (I_CrosschainArgs (CA_BridgeCall true BgNil 0 0 false)) = VPanic.
+  validate (I_CrosschainArgs (CA_BridgeCall true BgNil 0 0 false)) = VPanic /\
+  validate (I_IbcCallEvmPacket {| ic_to := XEth; ic_value := INil; ic_data := HGood |}) = VPanic.
 Proof. repeat split; vm_compute; reflexivity. Qed.
 
 (* arguments decoded by go-ethereum's abi package never contain a nil *big.Int: precompile argument validation is total on them *)
@@ -303,6 +310,9 @@ Proof.
   - destruct c as [ch b]; unfold v_MsgBridgeTokenClaim; cbn; destruct (chain_known ch); cbn; try discriminate; destruct b; cbn; try discriminate; reflexivity.
   - destruct c as [ch b]; unfold v_MsgOracleSetUpdatedClaim; cbn; destruct (chain_known ch); cbn; try discriminate; destruct b; cbn; try discriminate; reflexivity.
 Qed.
+
+Lemma must_safe_ibc_call : forall m, v_IbcCallEvmPacket m = VOk -> all_def (must_IbcCallEvmPacket m) = true.
+Proof. intros [t v d]; unfold v_IbcCallEvmPacket; destruct t, v, d; cbn; try discriminate; reflexivity. Qed.
 
 (* keeper Claim: msg.Claim.GetCachedValue().(ExternalClaim) succeeds after ValidateBasic *)
 Lemma must_safe_msg_claim : forall m, v_MsgClaim m = VOk -> exists c, mc_claim m = AnyIs c /\ v_claim c = VOk.
